@@ -1,5 +1,5 @@
 """C09 — every operation terminates; the background worker never dies."""
-from gen import lib, dbh, sched
+from gen import lib, dbh, sched, fault
 
 PROP_FILE = "props/C09.v"
 RULE = ("Every harness call runs under a watchdog and a process-wide panic hook records panics on "
@@ -45,16 +45,24 @@ def corpus():
 
 def suites(tier, seed, rng):
     return [dbh.DbSuite(corpus() + gen_cases(tier, rng), timeout_s=60),
-            sched.SchedSuite(sched.gen_cases(tier, rng, {"bg", "group"}))]
+            sched.SchedSuite(sched.gen_cases(tier, rng, {"bg", "group", "waiters"})),
+            # calls must return also after an I/O fault has put the database into its sticky error
+            # state: every later write is refused, none may hang
+            fault.FaultSuite(["%s # %d" % (" ".join(fault.gen_history(rng, "f%d" % i, rng.choice([12, 20]))), 2 if tier == "quick" else 20)
+                              for i in range(3 if tier == "quick" else 60)])]
 
 
 def replay_suites(rp):
+    if rp.get("suite") == "fault":
+        return [fault.FaultSuite([rp["case"]])]
     if rp.get("suite") == "sched":
         return [sched.SchedSuite([rp["case"]])]
     return [dbh.DbSuite([rp["case"]], timeout_s=60)]
 
 
 def still_fails(suite, case, workdir):
+    if suite == "fault":
+        return bool(fault.FaultSuite([case]).execute(workdir, tag="sh")[1])
     if suite == "sched":
         s = sched.SchedSuite([case])
         return bool(s.execute(workdir, tag="sh")[1])
